@@ -1817,8 +1817,7 @@ bool TypeChecker::checkExpression(expression_t expr)
     }
 
     case EXIT: {
-        assert(temp);
-        if (!temp->dynamic) {
+        if (temp == nullptr || !temp->dynamic) {  // no template: a function declared globally
             handleError(expr, "Exit can only be used in templates declared as dynamic");
             return false;
         }
